@@ -24,20 +24,21 @@ def run(ctx: Ctx) -> None:
     w = "middleware.proxy_fix:_get_trusted_value"
     src = norm(tv)
     # structural part: values collected from all matching headers, split on commas, in order
-    ext = [c for c in calls(tv) if call_name(c) == "values.extend"]
+    ext = [c for c in calls(tv) if isinstance(c.func, ast.Attribute) and c.func.attr == "extend" and isinstance(c.func.value, ast.Name)]
+    lname = ext[0].func.value.id if ext else "values"
     ok = len(ext) == 1 and "header_value.split(b',')" in norm(ext[0]) and ".strip()" in norm(ext[0]) and any(a == ("header_name.lower() == name", True) for a in guard_atoms(ext[0]))
     ctx.check("C20.R1", w, "values = all comma-separated items of all matching headers, in order", ok, "forwarding values must be collected left to right across repeated headers", ext[0] if ext else tv)
     # selection part: evaluate everything after the collection loop as a function of (values, trusted_hops)
     loop_end = max((n.end_lineno for n in walk_local(tv) if isinstance(n, ast.For)), default=0)
     tail = [s for s in tv.body if s.lineno > loop_end]
-    head = [s for s in tv.body if s.lineno <= loop_end and not isinstance(s, ast.For) and not (isinstance(s, ast.Assign) and norm(s.targets[0]) == "values")]
+    head = [s for s in tv.body if s.lineno <= loop_end and not isinstance(s, ast.For) and not (isinstance(s, ast.Assign) and norm(s.targets[0]) == lname)]
     fn = ast.FunctionDef(name="sel", args=tv.args, body=head + tail, decorator_list=[], lineno=0)
     bad = None
     try:
         for hops in range(0, 5):
             for n in range(0, 6):
                 vals = tuple(f"v{i}" for i in range(n))
-                got = eval_function(fn, {"values": vals, "trusted_hops": hops, "name": b"x", "headers": ()})
+                got = eval_function(fn, {lname: vals, "trusted_hops": hops, "name": b"x", "headers": ()})
                 want = None if hops == 0 or n < hops else vals[-hops]
                 if got != want:
                     bad = (hops, vals, got, want)
@@ -75,13 +76,14 @@ def run(ctx: Ctx) -> None:
     dm = repo.func("middleware.dispatcher", "_DispatcherMiddleware.__call__")
     wd = "middleware.dispatcher:_DispatcherMiddleware.__call__"
     loops = [n for n in walk_local(dm) if isinstance(n, ast.For)]
-    ok = len(loops) == 1 and norm(loops[0].iter) == "self.mounts.items()" and norm(loops[0].target) == "(path, app)"
+    ok = len(loops) == 1 and norm(loops[0].iter) == "self.mounts.items()" and isinstance(loops[0].target, ast.Tuple) and len(loops[0].target.elts) == 2 and all(isinstance(e, ast.Name) for e in loops[0].target.elts)
+    pv, av = (loops[0].target.elts[0].id, loops[0].target.elts[1].id) if ok else ("path", "app")
     ctx.check("C20.R3", wd, "for path, app in self.mounts.items()", ok, "mounts must be tried in insertion order", loops[0] if loops else dm)
     rets = [n for n in walk_local(dm) if isinstance(n, ast.Return)]
-    ok = len(rets) == 1 and norm(rets[0].value) == "await app(scope, receive, send)" and ("scope['path'].startswith(path)", True) in guard_atoms(rets[0]) and loops and any(a is loops[0] for a in ancestors(rets[0]))
+    ok = len(rets) == 1 and norm(rets[0].value) == f"await {av}(scope, receive, send)" and (f"scope['path'].startswith({pv})", True) in guard_atoms(rets[0]) and loops and any(a is loops[0] for a in ancestors(rets[0]))
     ctx.check("C20.R3", wd, "first prefix match returns app(scope, receive, send)", ok, "the first matching mount must handle the request and stop the search", rets[0] if rets else dm)
     rw = [n for n in walk_local(dm) if isinstance(n, ast.Assign) and norm(n.targets[0]) == "scope['path']"]
-    ok = len(rw) == 1 and norm(rw[0].value) == "scope['path'][len(path):] or '/'" and rets and rw[0].lineno < rets[0].lineno and guard_atoms(rw[0]) == guard_atoms(rets[0])
+    ok = len(rw) == 1 and norm(rw[0].value) == f"scope['path'][len({pv}):] or '/'" and rets and rw[0].lineno < rets[0].lineno and guard_atoms(rw[0]) == guard_atoms(rets[0])
     ctx.check("C20.R3", wd, "scope['path'] = scope['path'][len(path):] or '/'", ok, f"path rewritten as {[norm(r.value) for r in rw]}", rw[0] if rw else dm)
     g = CFG(dm)
     starts = g.where(has_stmt(lambda n: isinstance(n, ast.Call) and call_name(n) == "send" and "'status': 404" in norm(n)))
